@@ -24,7 +24,9 @@ RULE = ('pseudo-observation arrays X (n,2): samples of Clayton/Frank/Gumbel draw
         'Bivariate.select_copula. A case is distinct by (kind, bytes of X) and non-trivial when the ranking path '
         'is taken (tau > 0). The search also runs HISTORIES: chains of data sets whose taus differ by 2/(n(n-1)) '
         '(one pair of points swapped) or sliding windows of one long sample, visited forwards and backwards in one '
-        'process; after every call theta is compared with a harness-side calibration of that data set\'s own tau; an '
+        'process; after every call theta is compared with a harness-side calibration of that data set\'s own tau; STRONGLY NEGATIVE '
+        'dependence (tau in {-.5,-.8,-.9,-.95,-.98}; reflected Clayton, Frank and Gaussian-copula draws from harness '
+        'samplers) in tie and search: Frank theta against the harness calibration and, by the Debye function, back to tau; an '
         'ALIASING batch (8 calls on harness-sampled arrays covering all three families, all results kept and re-checked: '
         'unchanged, pairwise distinct objects, equal to a second call on the same X); and LARGE-n cases (n = 10000, '
         '12000, 20001 from harness-side samplers): _compute_empirical against the definition over all rows (1e-12) and '
@@ -255,6 +257,9 @@ def datasets(ctx, grid, stream, nfam, nsmall, nbad, sizes):
     for n in (rng.choice([20, 60]), rng.choice([150, 400])):
         r = np.random.RandomState(rng.randrange(2 ** 31))
         out.append(('independent', r.uniform(size=(n, 2))))
+    for k, tau in enumerate(NEGATIVE_TAUS):           # strongly negative dependence: Frank's solver far from its start
+        samp = NEGATIVE_SAMPLERS[rng.randrange(len(NEGATIVE_SAMPLERS))]
+        out.append((f'negative-{samp}', negative_sample(samp, tau, rng.choice([150, 300, 600]), rng.randrange(2 ** 31))))
     for _ in range(nsmall):
         out.append(adversarial(rng, grid))
     for _ in range(nbad):
@@ -906,6 +911,71 @@ def aliasing_oracle(ctx, batch=ALIAS_BATCH):
     return checks
 
 
+# ----------------------------------------------------------------------------------- strongly negative dependence
+NEGATIVE_TAUS = (-0.5, -0.8, -0.9, -0.95, -0.98)
+NEGATIVE_SAMPLERS = ('clayton-reflected', 'frank', 'gaussian')
+
+
+def negative_sample(samp, tau, n, seed):
+    """pseudo-observations with Kendall tau near `tau` < 0 (harness-side samplers only)."""
+    if samp == 'clayton-reflected':
+        return own_sample('clayton-reflected', -tau, n, seed)
+    if samp == 'frank':
+        return own_sample('frank', tau, n, seed)
+    from scipy import stats
+    rho = math.sin(math.pi * tau / 2.0)
+    z = np.random.RandomState(seed).multivariate_normal([0.0, 0.0], [[1.0, rho], [rho, 1.0]], size=n)
+    return np.clip(stats.norm.cdf(z), 1e-12, 1.0 - 1e-12)
+
+
+def frank_tau_of_theta(theta):
+    """Kendall's tau of the Frank copula by the Debye function D1 (integral from 0, expm1): independent of the
+    library's residual."""
+    from scipy import integrate
+    d1 = integrate.quad(lambda t: t / math.expm1(t) if t else 1.0, 0.0, theta, epsabs=1e-13, epsrel=1e-13)[0] / theta
+    return 1.0 + 4.0 * (d1 - 1.0) / theta
+
+
+def negative_tau_case(ctx, spec):
+    from copulas.bivariate import select_copula
+    from scipy import stats
+    samp, tau0, n, seed = spec
+    X = negative_sample(samp, tau0, n, seed)
+    inp = {'sampler': 'harness ' + samp, 'nominal_tau': tau0, 'n': n, 'seed': seed}
+    with np.errstate(all='ignore'):
+        tau = float(stats.kendalltau(X[:, 0], X[:, 1])[0])
+        r = select_copula(X)
+    cls = 'select_copula:frank-theta-not-calibrated:negative-tau'
+    req = 'for tau < 0 the result is Frank with tau = Kendall tau of X and theta = the Frank calibration of that tau'
+    if fam_of(r) != 'frank' or not same(r.tau, tau):
+        ctx.fail_input('copulas.bivariate.select_copula', inp,
+                       {'family': fam_of(r), 'tau': float(r.tau), 'kendalltau': tau}, req, cls)
+        return 1
+    ok, ref = theta_is_own(r.theta, tau)
+    obs = {'tau': tau, 'theta': float(r.theta), 'own_calibration_of_tau': ref}
+    if ok and 1e-3 <= abs(tau) <= 0.985:
+        # second, library-independent reading: the tau of the returned theta by the Debye function
+        back = frank_tau_of_theta(float(r.theta))
+        obs['tau_of_returned_theta'] = back
+        ok = abs(back - tau) <= 1e-4
+    if not ok:
+        ctx.fail_input('copulas.bivariate.select_copula', inp, obs, req, cls)
+    return 3
+
+
+def negative_tau_specs(ctx=None):
+    out = []
+    for i, tau in enumerate(NEGATIVE_TAUS):
+        for j, samp in enumerate(NEGATIVE_SAMPLERS):
+            out.append((samp, tau, 300 + 100 * ((i + j) % 3), 3100 + 10 * i + j))
+    return out
+
+
+def negative_tau_oracle(ctx):
+    # most negative tau first: the first failing input recorded per class is the most telling one
+    return sum(negative_tau_case(ctx, spec) for spec in sorted(negative_tau_specs(), key=lambda sp: sp[1]))
+
+
 RECOVERY_TAUS = (0.3, 0.5, 0.7)
 RECOVERY_N = 3000
 RECOVERY_SEEDS = 10
@@ -936,6 +1006,7 @@ def search(ctx, deep):
     checks += history_oracle(ctx, deep)
     checks += aliasing_oracle(ctx)
     checks += large_n_oracle(ctx)
+    checks += negative_tau_oracle(ctx)
     cells = {}
     if deep:
         rng = ctx.rng('recovery')
@@ -966,6 +1037,9 @@ def replay(ctx, payload):
         return sum(1 for g in got if g == fam) < 0.7 * len(got)
     if cls == 'select_copula:result-aliased-across-calls' and 'batch' in inp:
         aliasing_oracle(ctx, tuple(tuple(b) for b in inp['batch']))
+        return any(f['class'] == cls for f in ctx.failing[before:])
+    if cls.endswith(':negative-tau') and 'seed' in inp:
+        negative_tau_case(ctx, (inp['sampler'].replace('harness ', ''), inp['nominal_tau'], inp['n'], inp['seed']))
         return any(f['class'] == cls for f in ctx.failing[before:])
     if cls.endswith(':large-n') and 'seed' in inp:
         large_n_case(ctx, (inp['family'], inp['tau'], inp['n'], inp['seed']), cls.startswith('select_copula'))
